@@ -23,7 +23,9 @@ Clauses(ev) ==
     [ NoError |-> ~ev.err,
       Post |-> PostOK(ev.orgs, SpeciesOf(ev), ev.popsize, ev.id, ev.post),
       Files |-> { ev.files[k] : k \in DOMAIN ev.files } = ExpectedFiles(ev.kind, ev.orgs, ev.trial, ev.id, ev.printevery, ev.optn),
-      Winner |-> \A k \in Evaluated(ev) : IF ev.kind = "xor" THEN XorWinner(ev.orgs[k]) ELSE PoleWinner(ev.orgs[k]),
+      \* (the double-pole evaluator flags only the champion; its winners are those the evaluation function reported)
+      Winner |-> \A k \in Evaluated(ev) : CASE ev.kind = "xor" -> XorWinner(ev.orgs[k]) [] ev.kind = "pole" -> PoleWinner(ev.orgs[k])
+                                                [] OTHER -> ev.orgs[k].win => ev.post.champ = k,
       Scale |-> \A k \in Evaluated(ev) : IF ev.kind = "xor" THEN XorScale(ev.orgs[k]) ELSE PoleScale(ev.orgs[k]) ]
 AllTrue(c) == \A f \in DOMAIN c : c[f]
 
